@@ -1,7 +1,7 @@
 (* Assets/Properties.v — property theorems of C39 only; proofs live in Proofs.v. *)
 From Common Require Import Base.
 From Coq Require Import ZArith.
-From Assets Require Import Model Proofs.
+From Assets Require Import Model Proofs Resolved.
 Open Scope Z_scope.
 
 (* No Range header (or none at all) and no file size makes the handler panic. *)
@@ -104,3 +104,18 @@ Example C39_conditional_nonvacuous :
   handle_cond hash true false (Some [98;121;116;101;115;61;50;45;53]%N) (Some tag) ten = Plain (Partial 2 5 10 [50;51;52;53]%N) /\
   (forall a b : list N, hash a = hash b -> a = b).
 Proof. vm_compute. repeat split. auto. Qed.
+
+(* Symbolic links (tree file-system model of coq/Sandbox): the lexical confinement of the NAME does not
+   confine what the kernel reads.  C39_resolved_statement (Resolved.v) is the property at full strength
+   over the tree model; it is refuted by a link under the root that points outside — recorded as the
+   known finding symlink-inside-root-followed and replayed on the real handler by every run. *)
+Theorem C39_symlink_refuted : ~ C39_resolved_statement.
+Proof. exact resolved_refuted. Qed.
+
+Example C39_symlink_witness :
+  forallb plain_seg sl_root = true /\
+  Sandbox.Model.evalsym_t sl_fs (true, sl_root) = Some (true, sl_root) /\
+  normalize sl_root sl_path = sl_root ++ [[108;105;110;107;102;105;108;101;46;116;120;116]]%N /\
+  Sandbox.Model.touch_t sl_fs (true, normalize sl_root sl_path) = Some (true, [[114]; [115;101;99;114;101;116;46;116;120;116]]%N) /\
+  Sandbox.Model.below (true, [[114]; [115;101;99;114;101;116;46;116;120;116]]%N) (true, sl_root) = false.
+Proof. exact symlink_witness. Qed.
